@@ -70,6 +70,7 @@ CANARIES = [
     ("astype-copies-twice", "c10_astype", "tensor_base.py", "        return type(self)(cast_data, copy=False, constant=constant)", "        return type(self)(cast_data, constant=constant)", r"C10\.astype.*new_tensor_gets_the_requested_flag"),
     ("shape-setter-keeps-old-gradient", "c04_shape", "tensor_base.py", "        self.null_grad(_clear_view_info=True)\n\n        # create placeholders for self and all of its view-children", "        # create placeholders for self and all of its view-children", r"C07\.shape.*grad=some.*gradient_nulled_before"),
     ("shape-setter-nulls-before-validation", "c04_shape", "tensor_base.py", "        # raise here if the shape is not compatible\n        self.data.shape = newshape", "        self.null_grad(_clear_view_info=True)\n        # raise here if the shape is not compatible\n        self.data.shape = newshape", r"C13\.shape.*refused_shape_leaves_no_trace"),
+    ("sweep-clears-graph-on-refusal", "c14_seed", "tensor_base.py", "            for t in topo_sorted_tensors:\n                t._backward()", "            try:\n                for t in topo_sorted_tensors:\n                    t._backward()\n            finally:\n                self.clear_graph()", r"C09\.sweep.*refusal_propagates_and_leaves_the_graph_uncleared"),
     ("op-no-release-on-refused-result", "c_op", "tensor_base.py", "            if _mem.MEM_GUARD:\n                _mem.release_writeability_lock_on_op(_uniques_bases_then_arrs)\n            raise e", "            raise e", r"C08\.op\.failed_op_releases.*refused_result"),
     ("seed-cast-skipped-for-float-seeds", "c14_seed", "tensor_base.py", "            _grad = asarray(grad, dtype=self.dtype)\n", "            _grad = asarray(grad)\n            if _grad.size <= 1 or _grad.dtype.kind != \"f\":\n                _grad = asarray(grad, dtype=self.dtype)\n", r"I1\.dtype"),
     ("op-base-of-parent-var", "c_op", "tensor_base.py", "base = parent_var if parent_var.base is None else parent_var.base", "base = parent_var", r"C04\.base\.result_base"),
